@@ -44,7 +44,7 @@ def make_inline(P):
                 ok = (b.impl_self or "") not in NUMERIC and "format::Hex" not in (b.impl_self or "") and "format::Octal" not in (b.impl_self or "") and "format::Binary" not in (b.impl_self or "")
             elif not b.impl_trait and not b.in_trait:
                 ok = r.startswith(("scpi::parser::response::", "scpi::error::", "scpi::parser::format::", "scpi::parser::tokenizer::util::", "scpi::option::"))
-            elif (b.impl_trait or "").startswith(("core::convert::From", "core::convert::Into")) and r.startswith(("scpi::error::", "<scpi::error", "<error::")):
+            elif any(x in (b.impl_trait or "") for x in ("convert::From", "convert::Into", "default::Default")) and ("error::" in r):
                 ok = True
         cache[r] = ok
         return ok
